@@ -356,7 +356,7 @@ def type_word(expr, env, local):
 def check_function_algebra(ctx):
     m = ctx.model
     from ..fold import fold, CannotFold
-    DOMAIN = {"tuplify": [5, "s", None, (), (1,), (1, 2), ((1, 2),)], "untuplify": [(), (1,), (1, 2), ((1, 2),), ((),), (None,), (1, 2, 3)]}
+    DOMAIN = {"tuplify": [5, "s", None, (), (1,), (1, 2), ((1, 2),), [1, 2], [], {1: 2}], "untuplify": [(), (1,), (1, 2), ((1, 2),), ((),), (None,), (1, 2, 3)]}
     REF = {"tuplify": lambda x: x if isinstance(x, tuple) else (x,), "untuplify": lambda x: x[0] if len(x) == 1 else x}
     for name in ("tuplify", "untuplify"):
         fn = m.func(CART + "." + name)
@@ -704,6 +704,22 @@ def lambda_on_labels(lam):
 BOUND = {"quick": 3, "thorough": 5}
 
 
+def check_disco(ctx):
+    """R19.2: the decorator disco(dom, cod, name) stores the decorated function in a Box with the declared arities, in this order"""
+    m = ctx.model
+    fn = m.func(CART + ".disco")
+    ctx.analysed(CART + ".disco")
+    dec = next((s for s in fn.body if isinstance(s, ast.FunctionDef)), None)
+    ctx.need(dec is not None, "disco has no inner decorator")
+    d, c, nm = (a.arg for a in fn.args.args[:3])
+    f = dec.args.args[0].arg
+    rets = [r for r in ast.walk(dec) if isinstance(r, ast.Return)]
+    ctx.need(bool(rets), "disco's decorator returns nothing")
+    for k, r in enumerate(rets):
+        shape.match(ctx, "R19.2", "%s.disco:box@%d" % (CART, k), r.value, ["Box(func.__name__, dom, cod, func)", "Box(name, dom, cod, func)"], {d: "dom", c: "cod", nm: "name", f: "func"}, mod=CART, node=r,
+                    sig="disco-box", required="Box(<name>, dom, cod, func): the declared number of inputs first, then of outputs, then the function itself")
+
+
 def check_structural(ctx):
     m = ctx.model
     consts = m.module_assigns.get(CART, {})
@@ -790,6 +806,7 @@ def check(ctx):
     ctx.rule("R19.4", "the functor wiring (each box applied at its offset between identities) is the one decided by C04")
     check_function_algebra(ctx)
     check_call(ctx)
+    check_disco(ctx)
     check_structural(ctx)
     from ..core import Ctx
     from . import c04
@@ -799,6 +816,6 @@ def check(ctx):
     ctx.ob("R19.4", "C04:dependency", not bad and not sub.broken, found=["%s %s" % (o.rule, o.construct) for o in bad][:4] or "R04.1 / R04.2 discharged",
            required="monoidal.Functor.__call__ applies id(left) @ F(box) @ id(right) layer by layer (C04)", mod="discopy.monoidal", node=None, sig="dep-C04:" + ",".join(sorted({o.rule for o in bad})))
     ctx.floor("R19.1", 14)
-    ctx.floor("R19.2", 4)
+    ctx.floor("R19.2", 6)
     ctx.floor("R19.3", 6)
     ctx.not_decided += ["user functions returning a tuple as a single value", "widths above the bound of R19.3"]
